@@ -171,6 +171,11 @@ def native_run_mdns(case, release=False):
             f.write('\n#[cfg(test)]\n#[allow(dead_code, unused_imports, clippy::all)]\nmod verif_case;\n')
         with open(os.path.join(dst, 'simple-mdns', 'src', 'resource_record_manager.rs'), 'a') as f:
             f.write('\n#[cfg(test)]\npub(crate) fn get_key_for_test(name: &Name) -> Vec<u8> {\n    get_key(name)\n}\n')
+        with open(os.path.join(dst, 'simple-mdns', 'src', 'sync_discovery', 'service_discovery.rs'), 'a') as f:
+            f.write('\n#[cfg(test)]\npub(crate) fn add_response_for_test(packet: Packet, service_name: &Name<\'_>, full_name: &Name<\'_>, '
+                    'owned_resources: &mut ResourceRecordManager) {\n    add_response_to_resources(packet, service_name, full_name, owned_resources, &mut None)\n}\n')
+        with open(os.path.join(dst, 'simple-mdns', 'src', 'sync_discovery', 'mod.rs'), 'a') as f:
+            f.write('\n#[cfg(test)]\npub(crate) use service_discovery::add_response_for_test;\n')
     prelude = open(os.path.join(REPLAY_SRC, 'mdns_prelude.rs')).read()
     with open(os.path.join(dst, 'simple-mdns', 'src', 'verif_case.rs'), 'w') as f:
         f.write(prelude + '\n' + case['code'])
